@@ -139,7 +139,7 @@ def implied(T, e_lits, e_conds, e_frames, r_frames):
 
 def pair_tokens(ctx, rep, T, be, tokens, reg_callee, global_regs):
     struct, file = emit.BACKENDS[be]
-    fns = [g for g in ctx.astq['functions'] if g['file'].endswith(file)]
+    fns = inline.file_views(ctx, file)   # helpers no rule knows are seen inside their callers
     n = 0
     for f in fns:
         if f['name'] in ('write_all_imports', 'add_import', 'add_imports', 'add_type_var'):
